@@ -170,21 +170,21 @@ def varmodelN (req : Json) : R Reply := do
   let values ← asList asRat (← field i "values")
   let ats ← asList asNLoc (← field i "at")
   let obs ← field req "obs"
+  let hyp := Json.bool (decide (wfInput locs) && values.length == locs.length)
   match variationModel axisOrder locs with
-  | .error e => return { model := Json.mkObj [("err", Json.str e)], holds := true }
+  | .error e => return { model := Json.mkObj [("err", Json.str e)], holds := true, hyp }
   | .ok m =>
     let model := Json.mkObj [("order", listJ nlocJ m.locations), ("supports", listJ regionJ m.supports),
       ("reverseMapping", listJ natJ m.reverseMapping), ("deltas", listJ ratJ (m.getDeltas values)),
       ("interp", listJ ratJ (ats.map (fun x => m.interpolateFromMasters x values))),
       ("atMasters", listJ ratJ (locs.map (fun x => m.interpolateFromMasters x values)))]
     match obs.getObjVal? "err" with
-    | .ok _ => return { model, holds := true }
+    | .ok _ => return { model, holds := true, hyp }
     | .error _ =>
       let oAt ← asList asRat (← field obs "atMasters")
       let tol ← asRat (← field i "tol")
       -- the law, on the implementation's output: interpolating at master i gives master i's value (exactly when tol = 0)
-      let ok := oAt.length == values.length && (oAt.zip values).all (fun (a, b) => absQ (a - b) ≤ tol)
-      return { model, holds := ok }
+      return { model, holds := holdsReproduce values oAt tol, hyp }
 
 def asAnchors (j : Json) : R (List (String × List (String × Q × Q))) :=
   asList (asPair asStr (asList (fun a => do
